@@ -13,16 +13,23 @@ Correspondence between the extracted Coq model (coq/theories/Redact.v, runner
         message (JSON and text rendering of the model's dict), the debug trace of the
         fallback branch, the caller's env object afterwards
   deep  property-only cases outside the model (Python recursion limit)
+  conc  ONE DecisionLogger shared by 2-3 threads (directly, and as the sink of one Guard used through
+        evaluate_sync from several threads) whose emissions overlap in every order, and re-entered from its own
+        handler / filter (a collaborator that logs a decision while a record is being emitted): the multiset of
+        records reaching the destination logger vs the multiset of Redact.log's records of the calls; gates
+        (threading.Condition), no sleeps; a watchdog turns a hang into a note, never into a verdict
 
 The property is judged on the implementation's output: secret absent from the record
 whenever the hypotheses of c19_secret_gone hold (computed by the model's verified
 predicate Redact.secret_hyps), caller env untouched when not in place, sampling and size
 clauses, priority; a bare model/implementation difference is a correspondence break.
 """
+import collections
 import copy
 import itertools
 import json
 import logging
+import threading
 
 import lib
 
@@ -896,12 +903,596 @@ def check_defaults(chk):
                        impl=dlmod._DEFAULT_REDACTIONS, model=m, theorems=["c19_priority", "c19_default_set_redacts"])
 
 
+# --------------------------------------------------------------------------
+# kind "conc": ONE DecisionLogger used by several threads at once / re-entered from its own handler
+# --------------------------------------------------------------------------
+# The model's log is a function of (configuration, payload, draw) alone: no state is carried from one call to the
+# next.  So for a SET of calls -- whichever threads make them, however their emissions overlap, whether a call is
+# made from inside the handler that is emitting another record -- the records that reach the destination logger must
+# be, as a multiset, exactly the model's records of the calls the sampling rule selects: each once.  The collaborator
+# (handler / filter attached to the audit logger) is a slow sink the harness can park with gates; no sleeps.
+WATCHDOG = 60.0          # seconds; running into it is harness trouble (or a hang, which is C14's), never a verdict
+_CONC_LOGGER = "rbacx.audit.c19conc"
+PARKS = ["emit-nolock", "emit-lock", "hfilter", "lfilter"]
+#   emit-nolock  a handler without a handler-level lock parks inside emit()
+#   emit-lock    a handler with the usual re-entrant handler lock parks inside emit() holding it (others queue on the lock)
+#   hfilter      a handler-level filter parks (before the handler lock is taken)
+#   lfilter      a logger-level filter parks (before any handler is called)
+CONC_POLICY = {"algorithm": "deny-overrides", "rules": [
+    {"id": "r-read", "effect": "permit", "actions": ["read"], "resource": {"type": "doc"}},
+    {"id": "r-del", "effect": "deny", "actions": ["delete"], "resource": {"type": "doc"}},
+    {"id": "r-edit", "effect": "permit", "actions": ["edit"], "resource": {"type": "doc"}, "obligations": [{"type": "audit_note"}]},
+    {"id": "r-sign", "effect": "permit", "actions": ["sign"], "resource": {"type": "doc"}, "obligations": [{"type": "require_mfa"}]},
+]}
+
+
+class _Conductor:
+    """call i runs on thread i; states new -> running -> (parked | blocked)* -> done, all changes under one condition"""
+
+    def __init__(self, n):
+        self.cv = threading.Condition()
+        self.state = ["new"] * n
+        self.gate = [False] * n
+        self.depth = [0] * n
+        self.idx = {}            # thread ident -> call index (scheduled threads only, while they run)
+        self.trouble = None
+        self.on_hook = None
+
+    def current(self):
+        return self.idx.get(threading.get_ident())
+
+    def set_state(self, i, s):
+        with self.cv:
+            self.state[i] = s
+            self.cv.notify_all()
+
+    def fail(self, what):
+        with self.cv:
+            if self.trouble is None:
+                self.trouble = what
+            self.gate = [True] * len(self.gate)
+            self.cv.notify_all()
+
+    def wait_state(self, i, states):
+        with self.cv:
+            ok = self.cv.wait_for(lambda: self.state[i] in states or self.trouble is not None, WATCHDOG)
+        if not ok:
+            self.fail("call %d did not reach %s within %.0f s (state %s)" % (i, "/".join(states), WATCHDOG, self.state[i]))
+        return self.trouble is None
+
+    def open(self, i):
+        with self.cv:
+            self.gate[i] = True
+            self.cv.notify_all()
+
+    def hook(self, i):
+        """the collaborator's slow spot: nested calls of call i first, then park until the gate of call i opens"""
+        if i is None or self.depth[i]:
+            return               # a helper thread of the library, or the record of a nested call on this thread
+        self.depth[i] += 1
+        try:
+            if self.on_hook is not None:
+                self.on_hook(i)
+            with self.cv:
+                if not self.gate[i]:
+                    self.state[i] = "parked"
+                    self.cv.notify_all()
+                    ok = self.cv.wait_for(lambda: self.gate[i], WATCHDOG)
+                    self.state[i] = "running"
+                    self.cv.notify_all()
+                    if not ok:
+                        self.fail("call %d parked for more than %.0f s" % (i, WATCHDOG))
+        finally:
+            self.depth[i] -= 1
+
+
+class _ObsLock:
+    """re-entrant handler lock that tells the conductor when a scheduled thread has to queue on it"""
+
+    def __init__(self, cond):
+        self.cond, self._l = cond, threading.RLock()
+
+    def acquire(self, *a, **k):
+        if self._l.acquire(False):
+            return True
+        i = self.cond.current()
+        if i is not None:
+            self.cond.set_state(i, "blocked")
+        ok = self._l.acquire(True, WATCHDOG)
+        if i is not None:
+            self.cond.set_state(i, "running")
+        if not ok:
+            self.cond.fail("handler lock not obtained within %.0f s" % WATCHDOG)
+        return ok
+
+    def release(self):
+        try:
+            self._l.release()
+        except RuntimeError:
+            pass
+
+    __enter__ = acquire
+
+    def __exit__(self, *a):
+        self.release()
+
+
+class _ConcHandler(logging.Handler):
+    def __init__(self, cond, mode):
+        self.cond, self.mode = cond, mode
+        self.records = []        # (call index of the emitting thread or None, levelno, message)
+        super().__init__(level=1)
+
+    def createLock(self):
+        if self.mode == "emit-nolock":
+            self.lock = None
+        elif self.mode == "emit-lock":
+            self.lock = _ObsLock(self.cond)
+        else:
+            super().createLock()
+
+    def filter(self, record):
+        if self.mode == "hfilter" and record.levelno == logging.INFO:
+            self.cond.hook(self.cond.current())
+        return True
+
+    def emit(self, record):
+        i = self.cond.current()
+        self.records.append((i, record.levelno, record.getMessage()))
+        if self.mode in ("emit-nolock", "emit-lock") and record.levelno == logging.INFO:
+            self.cond.hook(i)
+
+
+class _ConcFilter:
+    def __init__(self, cond):
+        self.cond = cond
+
+    def filter(self, record):
+        if record.levelno == logging.INFO:
+            self.cond.hook(self.cond.current())
+        return True
+
+
+class _ThreadRandom:
+    """stands in for the `random` module inside decision_logger: the draw of the call the current thread is making"""
+
+    def __init__(self, default=None):
+        self.by, self.default = {}, default
+        self.calls, self.unscripted = 0, 0
+        self._l = threading.Lock()
+
+    def random(self):
+        st = self.by.get(threading.get_ident())
+        u = st[-1] if st else self.default
+        with self._l:
+            self.calls += 1
+            if u is None:
+                self.unscripted += 1
+        return 0.5 if u is None else u
+
+
+class _Recorder:
+    def __init__(self):
+        self.payloads = []
+
+    def log(self, payload):
+        self.payloads.append(copy.deepcopy(payload))
+
+
+def _req_objs(req):
+    from rbacx import Action, Context, Resource, Subject
+
+    return (Subject(id=req["sub"], roles=list(req.get("roles", [])), attrs=copy.deepcopy(req.get("attrs", {}))),
+            Action(req["action"]), Resource(type=req.get("rtype", "doc"), id=req.get("rid"), attrs=copy.deepcopy(req.get("rattrs", {}))),
+            Context(attrs=copy.deepcopy(req.get("ctx", {}))))
+
+
+_REF_CACHE = {}
+
+
+def guard_payload(policy, req):
+    """what the Guard hands to its sink for this request (sequential run with a recording sink; C11 judges that payload)"""
+    key = json.dumps([policy, req], sort_keys=True, default=str)
+    if key not in _REF_CACHE:
+        from rbacx import Guard
+
+        rec = _Recorder()
+        Guard(copy.deepcopy(policy), logger_sink=rec).evaluate_sync(*_req_objs(req))
+        _REF_CACHE[key] = rec.payloads[0] if len(rec.payloads) == 1 else None
+    return copy.deepcopy(_REF_CACHE[key])
+
+
+def conc_calls(case):
+    """flat list of the calls of a case: (label, spec, u); nested calls follow their outer call"""
+    out = []
+    for i, cl in enumerate(case["calls"]):
+        out.append(("c%d" % i, cl, cl["u"]))
+        for k, nc in enumerate(cl.get("nested", [])):
+            out.append(("c%dn%d" % (i, k), nc, case["nested_u"] if case["via"] == "guard" else nc["u"]))
+    return out
+
+
+def impl_conc(case):
+    import rbacx.logging.decision_logger as dlmod
+
+    calls, via = case["calls"], case["via"]
+    n = len(calls)
+    cond = _Conductor(n)
+    rnd = _ThreadRandom(case.get("nested_u") if via == "guard" else None)
+    lg = logging.getLogger(_CONC_LOGGER)
+    lg.setLevel(1)
+    lg.propagate = False
+    h = _ConcHandler(cond, case["park"])
+    lg.handlers[:] = [h]
+    lg.filters[:] = [_ConcFilter(cond)] if case["park"] == "lfilter" else []
+    eng = logging.getLogger("rbacx.engine")
+    eng_saved = (eng.handlers[:], eng.propagate)
+    eng_cap = _Capture()
+    eng.handlers[:] = [eng_cap]
+    eng.propagate = False
+    real = dlmod.random
+    dlmod.random = rnd
+    out = {"raised": {}, "results": {}, "made": []}
+    payloads = {}
+    try:
+        dl = dlmod.DecisionLogger(logger_name=_CONC_LOGGER, level=logging.INFO, **copy.deepcopy(case["kwargs"]))
+        guard = None
+        if via == "guard":
+            from rbacx import Guard
+
+            guard = Guard(copy.deepcopy(case["policy"]), logger_sink=dl)
+        for label, spec, _u in conc_calls(case):
+            if via == "direct":
+                payloads[label] = copy.deepcopy(spec["payload"])
+
+        def do_call(label, spec):
+            out["made"].append(label)
+            try:
+                if via == "direct":
+                    dl.log(payloads[label])
+                else:
+                    d = guard.evaluate_sync(*_req_objs(spec["req"]))
+                    out["results"][label] = [bool(d.allowed), d.effect]
+            except BaseException as e:  # noqa: BLE001
+                out["raised"][label] = type(e).__name__ + ": " + str(e)[:80]
+
+        def on_hook(i):
+            st = rnd.by.get(threading.get_ident())
+            for k, nc in enumerate(calls[i].get("nested", [])):
+                if st is not None:
+                    st.append(nc["u"] if via == "direct" else case["nested_u"])
+                try:
+                    do_call("c%dn%d" % (i, k), nc)
+                finally:
+                    if st is not None:
+                        st.pop()
+
+        cond.on_hook = on_hook
+
+        def body(i):
+            me = threading.get_ident()
+            cond.idx[me] = i
+            rnd.by[me] = [calls[i]["u"]]
+            cond.set_state(i, "running")
+            try:
+                do_call("c%d" % i, calls[i])
+            finally:
+                cond.idx.pop(me, None)      # idents are reused: a later helper thread must not be taken for call i
+                rnd.by.pop(me, None)
+                cond.set_state(i, "done")
+
+        threads = [threading.Thread(target=body, args=(i,), daemon=True, name="c19-conc-%d" % i) for i in range(n)]
+        for ev, i in case["schedule"]:
+            if cond.trouble is not None:
+                break
+            if ev == "s":
+                threads[i].start()
+                cond.wait_state(i, ("parked", "blocked", "done"))
+            else:
+                cond.open(i)
+                cond.wait_state(i, ("blocked", "done"))
+        for i in range(n):
+            cond.open(i)
+        for i, t in enumerate(threads):
+            if t.ident is None:
+                if cond.trouble is None:
+                    cond.fail("schedule never starts call %d" % i)
+                continue
+            t.join(WATCHDOG)
+            if t.is_alive():
+                cond.fail("call %d still running %.0f s after every gate was opened" % (i, WATCHDOG))
+    finally:
+        dlmod.random = real
+        lg.handlers[:] = []
+        lg.filters[:] = []
+        eng.handlers[:], eng.propagate = eng_saved
+    recs = list(h.records)
+    out.update(trouble=cond.trouble, msgs=[m for _i, lv, m in recs if lv == logging.INFO],
+               by_thread=[[i, m] for i, lv, m in recs if lv == logging.INFO],
+               debug=[m for _i, lv, m in recs if lv == logging.DEBUG], draws=rnd.calls, unscripted_draws=rnd.unscripted,
+               engine_errors=[m for _lv, m in eng_cap.records], payloads_after=payloads)
+    return out
+
+
+def sampling_clause(kw, pl, emitted):
+    """the sampling clauses of the property for one decision (the judgement of check_log), None if they allow the outcome"""
+    if not kw.get("smart_sampling"):
+        rate = _rate_view(kw)
+        if rate <= 0 and emitted:
+            return "sample_rate <= 0 but a record was emitted (c19_sampling_rate0)"
+        if rate >= 1 and not emitted:
+            return "sample_rate >= 1 but the decision was dropped (c19_sampling_rate1)"
+        return None
+    deny = str(pl.get("decision", "")) == "deny" or not bool(pl.get("allowed", False))
+    pwo = bool(pl.get("obligations") or [])
+    cat = "deny" if deny else "permit_with_obligations" if pwo else "permit"
+    default_rates = not kw.get("category_sampling_rates")
+    strat = kw.get("category_sampling_rates") or {"deny": 1.0, "permit_with_obligations": 1.0}
+    eff = float(strat.get(cat, kw.get("sample_rate", 1.0)))
+    if default_rates and cat != "permit" and not emitted:
+        return "smart sampling with default rates dropped a deny / permit-with-obligations (c19_sampling_smart_default)"
+    if eff >= 1 and not emitted:
+        return "smart sampling: the category's rate is >= 1 but the decision was dropped (c19_sampling_smart_rate1)"
+    if eff <= 0 and emitted:
+        return "smart sampling: the category's rate is <= 0 but a record was emitted (c19_sampling_smart_rate0)"
+    return None
+
+
+def overlap_of(case):
+    """does the schedule start a call while another one is parked"""
+    open_, ov = set(), False
+    for ev, i in case["schedule"]:
+        if ev == "s":
+            ov = ov or bool(open_)
+            open_.add(i)
+        else:
+            open_.discard(i)
+    return ov
+
+
+_CONC_TROUBLES = [0]
+
+
+def check_conc(chk, cases):
+    # ---- the payload of every call (Guard: what a sequential Guard hands to a recording sink), then the model per call
+    flat = []
+    for ci, c in enumerate(cases):
+        for label, spec, u in conc_calls(c):
+            pl = copy.deepcopy(spec["payload"]) if c["via"] == "direct" else guard_payload(c["policy"], spec["req"])
+            flat.append([ci, label, pl, u])
+    usable = [f for f in flat if isinstance(f[2], dict)]
+    red = [lib.dec(a) for a in lib.run_model("redact", [lib.model_call("redact.redacted", cases[ci]["kwargs"], pl) for ci, _l, pl, _u in usable])]
+    sizes = [json_size(r[1]) if r[0] == "ok" else None for r in red]
+    ans = lib.run_model("redact", [lib.model_call("redact.log", cases[f[0]]["kwargs"], f[2], float(f[3]), sz) for f, sz in zip(usable, sizes)])
+    hyp = lib.run_model("redact", [lib.model_call("redact.hyp", cases[f[0]]["kwargs"], f[2], cases[f[0]].get("secret", TOKEN)) for f in usable])
+    per = {}
+    for f, a, h in zip(usable, ans, hyp):
+        per.setdefault(f[0], []).append({"label": f[1], "payload": f[2], "u": f[3], "m": lib.dec(a), "h": lib.dec(h)})
+    for ci, c in enumerate(cases):
+        kw = c["kwargs"]
+        as_json = bool(kw.get("as_json", False))
+        in_place = bool(kw.get("redact_in_place", False))
+        token = c.get("secret", TOKEN)
+        ms = per.get(ci, [])
+        nested = any(cl.get("nested") for cl in c["calls"])
+        fam = c.get("fam", "conc")
+        chk.count("fam:" + fam)
+        if len(ms) != len(conc_calls(c)):
+            chk.count("conc:skipped:no-reference-payload")     # the Guard did not hand exactly one payload to its sink: C11's matter
+            continue
+        if any(x["m"][0] == "ood" for x in ms):
+            chk.count("skipped-out-of-domain:conc")
+            continue
+        if _CONC_TROUBLES[0] >= 2:
+            chk.count("conc:skipped-after-harness-trouble")
+            continue
+        got = impl_conc(c)
+        # the calls made: every top-level call; a nested call iff the record of its outer call reached the collaborator
+        chk.count("conc:nested-calls-not-made", sum(1 for x in ms if x["label"] not in got["made"]))
+        ms = [x for x in ms if x["label"] in got["made"]]
+        want = {x["label"]: (render(x["m"][2], as_json) if x["m"][0] == "emitted" else None) for x in ms}
+        exp = collections.Counter(w for w in want.values() if w is not None)
+        obs = collections.Counter(got["msgs"])
+        overl = overlap_of(c)
+        chk.mark(("conc", c["via"], c["park"], repr(kw), repr(c["calls"]), repr(c["schedule"]), c.get("nested_u")),
+                 (overl or nested) and sum(exp.values()) >= 2)
+        chk.count("conc:via=" + c["via"] + ":park=" + c["park"])
+        chk.count("conc:threads=%d" % len(c["calls"]) + (":nested" if nested else "") + (":overlap" if overl else ":sequential"))
+        chk.count("conc:expected-records=%d" % min(sum(exp.values()), 6))
+        chk.sample({"conc": {k: c[k] for k in ("via", "park", "kwargs", "calls", "schedule")}, "impl_msgs": got["msgs"],
+                    "model": sorted(exp.elements())}, every=997)
+        if got["trouble"] is not None:
+            _CONC_TROUBLES[0] += 1
+            chk.count("conc:harness-trouble")
+            chk.notes.append("C19 overlap scenario not judged (harness trouble, not a verdict): " + str(got["trouble"]) + " :: "
+                             + json.dumps(lib.jsonable({k: c[k] for k in ("via", "park", "kwargs", "schedule")}))[:400])
+            continue
+        impl_view = {"msgs": got["by_thread"], "draws": got["draws"], "raised": got["raised"], "engine_errors": got["engine_errors"][:3]}
+        model_view = {"records": want, "draws": sum(x["m"][1] for x in ms)}
+        where = (" [one DecisionLogger, %d thread(s), %s, park=%s, schedule %s]"
+                 % (len(c["calls"]), "nested calls from the handler" if nested else "overlapping calls" if overl else "sequential calls",
+                    c["park"], " ".join(e + str(i) for e, i in c["schedule"])))
+        viol = None
+        if got["raised"] or any("decision logging failed" in e for e in got["engine_errors"]):
+            viol = "DecisionLogger.log raised " + (sorted(got["raised"].values()) + ["(swallowed by the Guard: 'decision logging failed')"])[0]
+        if viol is None and all(x["h"] is True for x in ms) and any(token in m for m in got["msgs"]):
+            viol = ("the secret occurs only at configured well-formed paths (Redact.secret_hyps holds for every call) but appears in "
+                    "an emitted record (c19_secret_gone)")
+        if viol is None:
+            dup = [m for m in obs if exp.get(m, 0) >= 1 and obs[m] > exp[m]]
+            if dup:
+                viol = "more than one record emitted for one decision"
+        if viol is None:
+            missing = exp - obs
+            for x in ms:
+                w = want[x["label"]]
+                if w is not None and missing.get(w, 0) > 0:
+                    missing[w] -= 1
+                    cl = sampling_clause(kw, x["payload"], False)
+                    if cl:
+                        viol = cl + ": the record of call %s is missing" % x["label"]
+                        break
+        if viol is None:
+            extra = obs - exp
+            for x in ms:
+                # a record of a call the sampling rule forbids: recognised by the marker of the call (outside the redacted part)
+                mk = x["payload"].get("trace") if c["via"] == "direct" else (x["payload"].get("env") or {}).get("resource", {}).get("id")
+                if want[x["label"]] is None and isinstance(mk, str) and any(mk in m for m in extra):
+                    cl = sampling_clause(kw, x["payload"], True)
+                    if cl:
+                        viol = cl + ": call %s" % x["label"]
+                        break
+        if viol is None and c["via"] == "direct" and not in_place:
+            for x in ms:
+                after, before = got["payloads_after"][x["label"]], x["payload"]
+                if list(after) != list(before) or any(not same(after[k], before[k]) for k in before):
+                    viol = "redact_in_place=False but the caller's payload / env was modified (c19_caller_env_untouched): call " + x["label"]
+                    break
+        if viol:
+            chk.violation(viol + where, c, impl=impl_view, model=model_view)
+            continue
+        diff = None
+        if obs != exp:
+            diff = "the multiset of emitted records differs from the model's records of the selected calls"
+        elif got["draws"] != model_view["draws"] or got["unscripted_draws"]:
+            diff = "number of random draws consumed"
+        elif c["via"] == "direct" and any(x["m"][0] == "emitted" and x["m"][3] and not same(got["payloads_after"][x["label"]].get("env"), x["m"][4])
+                                          for x in ms):
+            diff = "caller's env object after the call (aliasing account)"
+        elif c["via"] == "guard" and any(got["results"].get(x["label"]) != [bool(x["payload"].get("allowed")), x["payload"].get("decision")]
+                                         for x in ms):
+            chk.count("conc:guard-decision-differs-from-sequential-run(C09/C14 matter)")
+        if diff:
+            chk.corr_break("DecisionLogger.log vs Redact.log over a set of calls: " + diff + where, c, impl=impl_view, model=model_view,
+                           theorems=["c19_sampling_rate1", "c19_sampling_smart_default", "c19_sampling_smart_rate1", "c19_sampling_rate0",
+                                     "c19_secret_gone", "c19_size_bound", "c19_caller_env_untouched"])
+
+
+def all_schedules(n):
+    """every interleaving of start (s) / release (r) of n calls, starts in index order, a call released after its start"""
+    out = []
+
+    def rec(seq, started, released):
+        if len(seq) == 2 * n:
+            out.append(seq)
+            return
+        if started < n:
+            rec(seq + [["s", started]], started + 1, released)
+        for i in range(started):
+            if i not in released:
+                rec(seq + [["r", i]], started, released | {i})
+
+    rec([], 0, frozenset())
+    return out
+
+
+CONC_SAMPLING_MUST = [   # every decision / every deny and permit-with-obligations must be emitted
+    {"sample_rate": 1.0}, {}, {"smart_sampling": True, "sample_rate": 0.0}, {"sample_rate": 1}, {"smart_sampling": True, "sample_rate": 1.0},
+    {"smart_sampling": True, "sample_rate": 0.0, "category_sampling_rates": {"deny": 1.0, "permit": 1, "permit_with_obligations": 2}},
+    {"sample_rate": 2}, {"smart_sampling": True, "sample_rate": 0.3, "category_sampling_rates": None},
+]
+CONC_SAMPLING_MIXED = [
+    {"sample_rate": 0.3}, {"sample_rate": 0.0}, {"smart_sampling": True, "sample_rate": 0.3},
+    {"smart_sampling": True, "sample_rate": 1.0, "category_sampling_rates": {"deny": 0, "permit_with_obligations": 0.3}},
+    {"smart_sampling": True, "sample_rate": 0.0, "category_sampling_rates": {"permit": 0.3}},
+]
+CONC_REDACT = [
+    {}, {"use_default_redactions": True}, {"use_default_redactions": True, "redact_in_place": True},
+    {"redactions": [{"type": "redact_fields", "fields": ["subject.attrs.password", "context.token"]}]},
+    {"redactions": [{"type": "mask_fields", "fields": ["subject.attrs.password", "context.token", "subject.id"], "placeholder": "***"}],
+     "redact_in_place": True},
+    {"redactions": [{"type": "redact_fields", "fields": ["subject.attrs", "context"]}], "max_env_bytes": 120},
+    {"redactions": []}, {"use_default_redactions": True, "max_env_bytes": 60},
+]
+CONC_DECISIONS = [
+    {"decision": "deny", "allowed": False}, {"decision": "permit", "allowed": True},
+    {"decision": "permit", "allowed": True, "obligations": [{"type": "require_mfa"}]},
+    {"decision": "permit", "allowed": True, "obligations": [{"type": "http_challenge", "on": "deny"}]},
+    {"decision": "deny", "allowed": False, "obligations": [{"type": "x"}]}, {"decision": "permit", "allowed": False},
+]
+CONC_ACTIONS = ["delete", "read", "edit", "sign", "zap"]
+
+
+def gen_conc_cases(chk):
+    rng = chk.rng
+    thorough = chk.tier == "thorough"
+    out = []
+
+    def kwargs(i):
+        samp = CONC_SAMPLING_MUST[i % len(CONC_SAMPLING_MUST)] if i % 3 != 2 else rng.choice(CONC_SAMPLING_MIXED)
+        kw = {**samp, **copy.deepcopy(rng.choice(CONC_REDACT))}
+        if rng.random() < 0.6:
+            kw["as_json"] = rng.choice([True, True, False])
+        return kw
+
+    def direct_call(tag, token, with_secret):
+        env = {"subject": {"id": "u-" + tag, "attrs": {"password": token, "n": rng.choice([1, "é", None])} if with_secret else {"n": 1}},
+               "context": {"ip": "10.0.0." + str(rng.randint(1, 9)), **({"token": {"v": token}} if with_secret and rng.random() < 0.5 else {})}}
+        return {"payload": {**copy.deepcopy(rng.choice(CONC_DECISIONS)), "env": env, "trace": "t-" + tag}, "u": rng.choice(DRAWS + [0.5])}
+
+    def guard_call(tag, token, with_secret):
+        act = rng.choice(CONC_ACTIONS)
+        return {"req": {"sub": "u-" + tag, "roles": ["user"], "attrs": {"password": token} if with_secret else {}, "action": act,
+                        "rid": "d-" + tag, "ctx": {"ip": "10.0.0.7", **({"mfa": True} if rng.random() < 0.5 else {})}},
+                "u": rng.choice(DRAWS + [0.5])}
+
+    def case(via, park, sched, i, nest):
+        n = 1 + max(j for _e, j in sched)
+        token = TOKEN + str(i % 7)
+        mk = direct_call if via == "direct" else guard_call
+        calls = [mk("%dx" % j, token, True) for j in range(n)]
+        c = {"kind": "conc", "fam": "conc-" + via + ("-nested" if nest else ""), "via": via, "park": park, "kwargs": kwargs(i),
+             "calls": calls, "schedule": sched, "secret": token}
+        if nest:
+            for j in range(n):
+                if j == 0 or rng.random() < 0.5:
+                    calls[j]["nested"] = [mk("%dn%dx" % (j, k), token, rng.random() < 0.5) for k in range(rng.choice([1, 1, 2]))]
+            c["nested_u"] = rng.choice(DRAWS + [0.5])
+        if via == "guard":
+            c["policy"] = CONC_POLICY
+        return c
+
+    i = 0
+    reps_direct, reps_guard = (36, 10) if thorough else (3, 1)
+    scheds = all_schedules(2) + all_schedules(3)
+    for park in PARKS:
+        for sched in scheds:
+            for _ in range(reps_direct):
+                out.append(case("direct", park, sched, i, False))
+                i += 1
+            if not thorough and len(sched) == 6 and (scheds.index(sched) + PARKS.index(park)) % 3:
+                continue             # quick: the Guard path (asyncio.run per call) takes a third of the 3-thread schedules per collaborator
+            for _ in range(reps_guard):
+                out.append(case("guard", park, sched, i, False))
+                i += 1
+    # re-entrant use: the collaborator itself logs (direct: on the same thread; Guard: evaluate_sync inside the running loop hands
+    # the nested evaluation to a helper thread, which must not queue on a handler lock held by the waiting outer call)
+    nscheds = all_schedules(1) + all_schedules(2) + (all_schedules(3) if thorough else [])
+    for park in PARKS:
+        for sched in nscheds:
+            for _ in range(reps_direct):
+                out.append(case("direct", park, sched, i, True))
+                i += 1
+            if park != "emit-lock":
+                for _ in range(reps_guard):
+                    out.append(case("guard", park, sched, i, True))
+                    i += 1
+    return out
+
+
 def check_cases(chk, cases, replay=False):
     cases = [copy.deepcopy(c) for c in cases]
     resolve_bounds(cases)
     by = {}
     for c in cases:
         by.setdefault(c.get("kind", "log"), []).append(c)
+    if by.get("conc"):
+        prev = logging.root.manager.disable
+        logging.disable(logging.NOTSET)
+        try:
+            check_conc(chk, by["conc"])
+        finally:
+            logging.disable(prev)
     with _LoggingOn() as cap:
         if by.get("int"):
             check_int(chk, by["int"])
@@ -937,8 +1528,14 @@ def run(chk):
                 "exact size -2..+2 over ASCII/non-ASCII envs, ill-typed specs; then seeded random envs (depth <= 4, secret planted "
                 "under object and list paths in 7 forms, specs over mask/redact/unknown types with noise paths: missing and "
                 "non-object intermediates, indices beyond the list, negative and malformed indices) x in_place x as_json x "
-                "rates x draws x bounds. non-trivial = a record was emitted and (the env held the secret, or a size bound, or "
-                "in-place redaction was configured) / the write changed the object; distinct = distinct input")
+                "rates x draws x bounds; then one DecisionLogger under concurrent and re-entrant use (kind conc): 2 and 3 threads "
+                "calling log() directly / through Guard.evaluate_sync of one Guard, every interleaving of start and release of "
+                "the calls (3 + 15 schedules) x 4 parking collaborators (handler without lock, handler holding its lock, handler "
+                "filter, logger filter) x sampling (mostly must-emit classes) x redaction configurations, and calls made by the "
+                "collaborator from inside the emission (same thread / Guard helper thread), judged on the multiset of emitted "
+                "records. non-trivial = a record was emitted and (the env held the secret, or a size bound, or "
+                "in-place redaction was configured) / the write changed the object / (conc) at least two records are expected "
+                "and the calls overlap or are nested; distinct = distinct input")
     chk.assumptions = [
         "env and payload are JSON-valued trees (no object reachable twice, no cycles); dict keys are str",
         "the UTF-8 size of json.dumps(redacted_env, ensure_ascii=False) is computed by Python on the model's redacted env and "
@@ -949,6 +1546,10 @@ def run(chk):
         "is ASCII (Unicode digits are outside the model's int()); list indices <= %d in generated cases" % BIG_INDEX,
         "secret tokens are ASCII alphanumerics (no JSON/repr escaping can hide or forge them in the rendering)",
         "random.random() returns a float in [0,1) (scripted)",
+        "kind conc: the model has no state between calls, so the expected records of a set of calls are the per-call records "
+        "of Redact.log, as a multiset, whatever the interleaving; the payload of a Guard call is the one a sequential Guard "
+        "hands to a recording sink (C11 judges it); the draw of a call is scripted per calling thread; each call has its own "
+        "payload object; a hang (watchdog %.0f s) is reported as a note, not judged (deadlocks are C14's)" % WATCHDOG,
     ]
     cases = corpus_cases()
     chk.extra["corpus_cases"] = len(cases)
@@ -957,6 +1558,9 @@ def run(chk):
     cases += gen_apply_cases(chk)
     cases += gen_log_cases(chk)
     cases += gen_deep_cases(chk)
+    conc = gen_conc_cases(chk)
+    chk.extra["conc_cases"] = len(conc)
+    cases += conc
     chk.exhaustive = True
     chk.notes.append("doc/code mismatch outside the statement: docs/logging.md and docs/audit_mode.md show "
                      "category_sampling_rates={'permit': 0.05} 'leaving deny/obligations at 1.0'; the code replaces the defaults by the "
